@@ -110,6 +110,18 @@ def replay(data):
     return replay_design(data)
 
 
+def _selftest(sub, item):
+    from ..enginea import count_ref_models
+    desc, want = item
+    comp = compile_design(desc)
+    R, _ = reference(comp)
+    n = count_ref_models(comp, R, limit=2000) if comp.sem.status == 'ok' else 0
+    sub.q('sat', 0, n)
+    if n != want:
+        raise HarnessError(f'reference semantics counts {n} sequences for {describe(desc)}; the acceptance suite asserts {want}')
+    return True
+
+
 def run(ctx):
     thorough = ctx.tier == 'thorough'
     limit = 5000 if thorough else 400
@@ -133,6 +145,10 @@ def run(ctx):
     r, _ = z3_check(comp.z.cnf(clo.d_clauses) + [e for _, e in R] + [not_exists_aux_z3(clo, comp.z)], ctx)
     if r != 'sat':
         raise HarnessError('vacuity: completeness query cannot see a strengthened formula')
+    # the reference itself is tied to the repository's hand-computed acceptance numbers (solver enumeration of R)
+    from ..corpus import acceptance_corpus, ACCEPTANCE_COUNTS
+    res = pmap(ctx, _selftest, list(zip(acceptance_corpus(), ACCEPTANCE_COUNTS)))
+    ctx.extra['reference_counts_matching_acceptance_tests'] = sum(1 for r in res if r)
     items = design_items(ctx, ('sound', 'complete'))
     res = pmap(ctx, check_design, items)
     ctx.extra['design_outcomes'] = {k: res.count(k) for k in set(res)}
